@@ -18,7 +18,7 @@ def to_py(v):
     t = v["t"]
     if t == "int": return v["v"]
     if t == "flt": return v["v"] / 1e7
-    if t == "str": return v["v"].replace("\\n", "\n\u2603\u00e9")     # backslash-n of the model = a real newline + non-ASCII characters (strings are opaque to the normalisation)
+    if t == "str": return v["v"].replace("\\n", "\n\u2603\u00e9\udce9")     # backslash-n of the model = a real newline + non-ASCII characters + a lone surrogate (what os.fsdecode gives for a non-UTF-8 file name); strings are opaque to the normalisation
     if t == "none": return None
     if t == "nan": return float("nan")
     if t == "inf": return float("inf")
